@@ -28,6 +28,7 @@ THEOREMS = [
     "c19_initialize_without_id_leaves_a_session",
     "c19_repeated_id_overwrites",
     "c19_managers_independent",
+    "c19_no_silent_removal",
 ]
 RULE = (
     "operation histories over {tick, create, get, update activity, delete, cleanup(max_age), list+mutate, clear, "
@@ -98,7 +99,7 @@ FALSY_AND_HOSTILE = [None, {}, [], "", 0, False, "%s %d", "{0} {}", "a\nb\r\nc",
                      "protocolVersion", "2025-03-26", 3600, {"name": "", "version": 0}, {"": None}]
 SYNTAX_TEXT = ['{"jsonrpc":"2.0","id":1,"result":{}}', "[NaN]", ":Infinity,", '\n{"id":1}', "data: x", "id: 1", ":", "{}", "null", '"']
 FALSY_AND_HOSTILE = FALSY_AND_HOSTILE + SYNTAX_TEXT + [{t: t for t in SYNTAX_TEXT}]
-R_METHODS = [("verif/raises-keyerror", 1), ("verif/raises-recursion", 0), ("ping", 3), ("ping", 0), ("ping", ""), ("nosuch/method", "x"), ("nosuch/method", 0), ("verif/raises", 1),
+R_METHODS = [("verif/reenter", 8), ("verif/reenter-then-raises", 9), ("verif/reenter", None), ("verif/raises-keyerror", 1), ("verif/raises-recursion", 0), ("ping", 3), ("ping", 0), ("ping", ""), ("nosuch/method", "x"), ("nosuch/method", 0), ("verif/raises", 1),
              ("verif/raises-empty", ""), ("verif/nonsense", 2), ("verif/silent", 5), ("verif/answers", 0),
              ("tools/list", 9), ("notifications/initialized", None), ("notifications/cancelled", None),
              ("verif/raises", None), ("notifications/initialized", 4), (None, 1), ("", 1)]
@@ -121,7 +122,7 @@ def seeded(rng, maxlen):
     for _ in range(n):
         r = rng.random()
         if r < 0.16:
-            ops.append(["T", rng.choice([0, 1, 1, 1, 2, horizon, horizon + 1, max(horizon - 1, 0), 3599, 3600, 3601])])
+            ops.append(["T", rng.choice([0, 1, 1, 1, 2, horizon, horizon + 1, max(horizon - 1, 0), 3599, 3600, 3601, 7200, 86400, 86400 * 400, -1, -3600])])
         elif r < 0.30:
             op = ["C", rng.choice([{"name": "c%d" % issued, "version": "1.0"}, {}, rand_json(rng), rng.choice(FALSY_AND_HOSTILE)]),
                   rng.choice(SUPPORTED + ["9999-01-01", "", "v", "%s", "{}"])]
@@ -176,7 +177,7 @@ def _same(a, b):
     return repr(a) == repr(b) or canon(a) == canon(b)
 
 
-KEY_OF = {"C": "create", "G": "lookup", "U": "update-activity", "D": "delete", "X": "expiry", "L": "listing-copy",
+KEY_OF = {"B": "create", "C": "create", "G": "lookup", "U": "update-activity", "D": "delete", "X": "expiry", "L": "listing-copy",
           "K": "clear", "N": "count", "I": "initialize", "R": "activity-on-dispatch", "T": "tick"}
 
 
@@ -193,6 +194,11 @@ def reference_check(case, obs):
             if not st["fresh"] and not scripted:
                 return ("id-not-unique", f"step {n}: create_session returned an id that was handed out before", {"fresh": True})
             ref[out[1]] = [op[1], op[2], now, now]
+        elif code == "B":
+            if not st["fresh"] and not scripted:
+                return ("id-not-unique", f"step {n}: create_session returned an id that was handed out before", {"fresh": True})
+            for k in range(st["first"], st["first"] + op[1]):
+                ref[k] = [op[2], op[3], now, now]
         elif code == "G":
             want_out = ["rec", ref.get(op[1])]
         elif code == "U":
@@ -315,10 +321,28 @@ class Histories(Suite):
                     ops += [T1, ["R", 0, me, mid]]
                 ops += [T1, ["R", 0, "ping", 1], ["R", 1, me, mid], T1, ["R", 1, "ping", 2], ["X", 1], ["N"], T1, T1, ["X", 1], ["N"]]
                 out.append({"ops": ops})
+        # directed: the environment moves — hours, a day, a year pass (or the clock is put back) between two operations
+        for jump in (60, 61, 3599, 3600, 3601, 7200, 86400, 86400 * 400, -3600):
+            for me, mid in [("ping", 1), ("nosuch/method", 2), ("verif/raises", 3), ("notifications/initialized", None), ("verif/reenter", 4)]:
+                out.append({"ops": [I, C, ["T", jump], ["R", 0, me, mid], ["G", 0], ["N"], ["U", 1], ["T", jump], ["I", 1, {"client": {}}, 5],
+                                    ["R", 0, me, mid], ["N"], ["X", 3600], ["N"], ["L", "none"]]})
+        # directed: growth x clock — stores of N sessions around every power of two and round number, one of them idle for
+        # longer than an hour while the caller's own limit is longer (or none); then one more create / initialize, and
+        # the old session must still be there: nothing but delete / cleanup / clear removes a session
+        sizes = [100, 255, 256, 257, 1000, 1023, 1024, 1025, 2000]
+        if budget != "quick":
+            sizes += [127, 128, 129, 511, 512, 513, 999, 1001, 1022, 2047, 2048, 2049, 4095, 4096, 4097, 10000]
+        for k, n_live in enumerate(sizes):
+            jump = (3601, 86400, 7200)[k % 3]
+            fresh = {"name": "f"}
+            out.append({"ops": [C, ["U", 0], ["T", jump], ["B", n_live - 1, fresh, "2025-06-18"], ["N"], ["G", 0],
+                                ["C", fresh, "2025-06-18"], ["G", 0],
+                                ["I", None, {"client": fresh, "version": "2025-06-18"}, 1], ["G", 0], ["N"],
+                                ["X", 10 ** 7], ["G", 0], ["X", jump - 1], ["N"]]})
         # directed: reuse — the same initialize envelope object dispatched three times, many sessions at once
         sp = {"client": {"name": "again"}, "version": "2025-06-18", "reuse": True}
         out.append({"ops": [["I", None, sp, 1], ["I", None, sp, 1], ["I", 0, sp, 1], ["N"], ["D", 1], ["I", 1, sp, 1], ["L", "pop"]]})
-        big = [C] * 40 + [T1] + [["U", k] for k in range(0, 40, 3)] + [T1, ["X", 1], ["N"], ["L", "both"]] + [C] * 40 + [["X", 0], K]
+        big = [C] * 120 + [T1] + [["U", k] for k in range(0, 120, 3)] + [T1, ["X", 1], ["N"], ["L", "both"]] + [C] * 120 + [["X", 0], K]
         out.append({"ops": big})
         if budget == "quick":
             out += list(words(A8, 5)) + list(words(A10, 4)) + list(words(A20, 3))
@@ -370,6 +394,8 @@ class Histories(Suite):
         n = len(case["ops"])
         codes = {op[0] for op in case["ops"]}
         tag = "+".join(sorted(codes & {"I", "R", "X", "L"})) or "basic"
+        if "B" in codes:
+            tag += "+bulk%d" % max(op[1] for op in case["ops"] if op[0] == "B")
         answers = {st.get("answer") for op, st in zip(case["ops"], o.get("steps", [])) if op[0] == "R" and op[1] is not None}
         if "error" in answers:
             tag += "+Rerr"
@@ -404,6 +430,9 @@ class Histories(Suite):
         for i, op in enumerate(ops):
             if op[0] == "T" and op[1] > 1:
                 yield {"ops": ops[:i] + [["T", 1]] + ops[i + 1:]}
+            if op[0] == "B" and op[1] > 1:
+                for m in (op[1] // 2, op[1] - 1):
+                    yield dict(case, ops=ops[:i] + [["B", m] + op[2:]] + ops[i + 1:])
             if op[0] == "C" and op[1] != {}:
                 yield {"ops": ops[:i] + [["C", {}, op[2]]] + ops[i + 1:]}
             if op[0] == "L" and op[1] == "both":
